@@ -669,7 +669,7 @@ func (c *Ctx) ruleGraphsPersist() {
 
 func runC03(c *Ctx) {
 	p, r := c.P, c.R
-	r.Explanation = "Decides the protocol obligations whose conjunction is the termination / no-leak argument for Send, each a necessary condition: every feasible send on a chan Status is an arm of a blocking select that also receives from the function's ctx.Done(); the collector's only blocking operation is one select over {ctx.Done(), status channel}, it leaves its loop on either ctx.Done() or channel closed, and nothing blocks between that and its return; the traversal's first effect is defer wg.Done(), every start of it is immediately preceded by wg.Add(1) on the same wait group, the channel is closed at exactly one site, after wg.Wait(), after the range; the inventory of blocking instructions reachable from Send inside package eventlogger equals these whitelisted protocol sites; channel and wait group are created per call and stay private to it. Latency bounds and scheduler fairness are not decided. C03.private make-size: no allocation of the package is sized by a value that can be negative. C03.nocopy: no repository function takes, returns or dereference-copies by value a type that contains a sync primitive. C03.private nil-handle: (*os.File).Name is called on FileSink.f only where the same function found the handle non-nil. C03.event: the event handed to nodes carries an allocated format table. C03.composer: composeFrom is the payload's own bound method. C03.private panic-site:hash: no map is keyed by, and no comparison made on, a type of the module that holds an error or other interface a node filled in (hashing or comparing a non-comparable dynamic value panics)."
+	r.Explanation = "Decides the protocol obligations whose conjunction is the termination / no-leak argument for Send, each a necessary condition: every feasible send on a chan Status is an arm of a blocking select that also receives from the function's ctx.Done(); the collector's only blocking operation is one select over {ctx.Done(), status channel}, it leaves its loop on either ctx.Done() or channel closed, and nothing blocks between that and its return; the traversal's first effect is defer wg.Done(), every start of it is immediately preceded by wg.Add(1) on the same wait group, the channel is closed at exactly one site, after wg.Wait(), after the range; the inventory of blocking instructions reachable from Send inside package eventlogger equals these whitelisted protocol sites; channel and wait group are created per call and stay private to it. Latency bounds and scheduler fairness are not decided. C03.private make-size: no allocation of the package is sized by a value that can be negative. C03.nocopy: no repository function takes, returns or dereference-copies by value a type that contains a sync primitive. C03.private nil-handle: (*os.File).Name is called on FileSink.f only where the same function found the handle non-nil. C03.event: the event handed to nodes carries an allocated format table. C03.composer: composeFrom is the payload's own bound method. C03.private panic-site:hash: no map is keyed by, and no comparison made on, a type of the module that holds an error or other interface a node filled in (hashing or comparing a non-comparable dynamic value panics). C03.private panic-site:atomic-value: every store into an atomic.Value (both modules) has one concrete type fixed in the source."
 	r.NotDecided = []string{"latency after cancellation as a number", "scheduler fairness", "panics inside user nodes"}
 	a := c.protoAnchors("C03.anchor")
 	if a == nil {
@@ -688,6 +688,7 @@ func runC03(c *Ctx) {
 	// panics in the wrapper of a value-receiver method, inside Send's goroutine)
 	c.ruleComposer("C03.composer")
 	c.ruleNoHashOfUserValues("C03.private")
+	c.ruleAtomicValueStores("C03.private")
 	// "never panics": Event.Formatted is an exported, documented field ("used by Formatters to store
 	// formatted Event data"); a node that stores into it directly runs in a goroutine created by Send,
 	// so the event Send builds carries an allocated map (the routing rule of C01 over the event literal)
@@ -1164,6 +1165,30 @@ func (c *Ctx) ruleInventoryAs(rule string, a *protoAnchors) {
 				r.Bad(rule, p.ShortFn(f)+":"+what, p.InstrPos(in), "blocking operation ("+what+") reachable from Send that is not part of the status protocol")
 			}
 		})
+	}
+	if rule == "C12.inventory" {
+		// ... and nothing else in the package waits at all: outside Send's protocol the Broker's calls
+		// only take locks (decided by the lock rules). A channel operation, WaitGroup.Wait or Sleep in
+		// Reopen, a registration or a removal is a wait nothing here decides the end of (a feeder
+		// left without workers, a result nobody delivers).
+		for _, f := range p.FuncsIn(PkgRoot) {
+			if reach[f] {
+				continue
+			}
+			eachInstr(f, func(in ssa.Instruction) {
+				what, ok := isBlocking(in)
+				if !ok {
+					return
+				}
+				if ci, isCall := in.(ssa.CallInstruction); isCall && lockOpOf(ci.Common()) != nil {
+					return
+				}
+				if what == "non-blocking select" || strings.HasSuffix(what, "time.After") || strings.HasSuffix(what, "time.Tick") {
+					return
+				}
+				r.Bad(rule, p.ShortFn(f)+":"+what+":outside-send", p.InstrPos(in), "blocking operation ("+what+") in package eventlogger outside Send's status protocol: no rule decides that whoever is waited for ever arrives — a Broker call that only depends on the nodes' returning may wait forever")
+			})
+		}
 	}
 	sort.Strings(fns)
 	r.Notes = append(r.Notes, "functions reachable from Send in package eventlogger: "+strings.Join(fns, ", "))
